@@ -182,6 +182,18 @@ main (int argc, char **argv)
     }
   }
 
+#if ! SVSIM_EXCEPTIONS
+  // a build without exceptions cannot inject anything: fault-free plans only
+  jb.faults = false;
+  if (jb.mode == "sweep")
+  {
+    std::fprintf (stderr, "sweep mode needs a build with exceptions\n");
+    return 2;
+  }
+  for (std::size_t i = 0; i < jb.replay_ops.size (); ++i)
+    jb.replay_ops[i].f = sim::fault_plan ();
+#endif
+
   std::vector<sim::universe_entry>& us = sim::universes ();
   if (list)
   {
